@@ -49,6 +49,31 @@ CLAIMED["C15"] = dict(
           "an environment assumption (DESIGN O6). Energy charged by these operations is C14's concern. Trusted: TLC, harness, H1/H3 wrappers."),
     ref="4 C15")
 
+CLAIMED["C01"] = dict(
+    engine="engine",
+    technique="TLA+ reference semantics WasmSem + ALU (exact limb arithmetic) with generator WasmGen (programs admitted by the WasmValidate state machine) run by TLC; every generated program executed on the real engine in 6 configurations and compared with the reference outcome; recorded defects attributed through CompileModel hazard predicates",
+    text=("WasmSem.tla is a small-step reference semantics of the on-chain Wasm subset written from the W3C specification (control with labels and carried values, locals, globals, "
+          "memory with bounds, direct and indirect calls, exact i32/i64 arithmetic in ALU.tla); WasmGen.tla lets TLC enumerate every function body over six focused alphabets up to a "
+          "length bound that the validation algorithm (WasmValidate.tla) admits - including unreachable code - plus ALU vectors over boundary operands and random longer bodies, and "
+          "executes each on the reference for 4 argument vectors. Each program is assembled and run through parse/validate/compile/run of the real engine under ValidationConfig V0/V1 x "
+          "{no metering, cost V0, cost V1}; result value, trap-ness, final memory (which includes the globals via a wrapper function) must equal the reference. The four recorded conformance "
+          "defects (D1-D4) are attributed only through their root-cause predicates evaluated on the reference run (CompileModel.tla) and pinned witnesses are run every time."),
+    note=("Bounded: one module template (4 functions, 2 globals, 1-2 pages, 4-entry table), bodies of length <= 4-7 per alphabet exhaustively and <= 14-24 randomly; i64 operands from boundary classes. "
+          "A different defect that only shows on runs where a D1/D2/D4 hazard predicate also holds would be attributed to the recorded finding (DESIGN 3.6). Trap classes are compared as trap-ness only. "
+          "Trusted: TLC, checks/wasmasm.py, harness, shims; the H2 assertions make out-of-bounds accesses deterministic panics."),
+    ref="4 C01")
+CLAIMED["C02"] = dict(
+    engine="engine",
+    technique="TLA+ Metering schedules (cost V0/V1) accumulated along the WasmSem reference run; real tick totals, account_memory announcements, budgets and interpreter step counts (H2) compared per generated program",
+    text=("Metering.tla transcribes the two protocol cost schedules and defines the work of an execution (schedule summed over executed instructions + invoke_after at function entry + branch cost "
+          "of taken br_if); WasmSem accumulates it along the reference run. For every generated program (same sources as C01) and both cost configurations the energy the real engine asks the "
+          "host to pay must equal the work for runs that do not trap (independently of how the implementation segments), be at least the work when it traps, be identical for two executions, "
+          "and account_memory must announce each memory.grow; budgets {used-1, used, used+5} must give out-of-energy / success / success with the same outcome; programs whose reference run "
+          "does not terminate must stop with out-of-energy for budgets 0..10^5; and the H2 opcode counter must stay below 4*|code|*(energy+1)+16."),
+    note=("The values of the schedule are taken as the protocol's definition (a change to them is flagged by design). The linear step bound is checked with a fixed constant, not proved. Budgets are enforced by the "
+          "harness Host (tick_energy failing), i.e. at the wasm-transform level; the chain-integration InterpreterEnergy path is exercised by C14. Same bounds and trusted base as C01."),
+    ref="4 C02")
+
 NOT_YET = {
 }
 
